@@ -5,6 +5,9 @@ import (
 	"reflect"
 	"sync"
 	"sync/atomic"
+	"syscall"
+	"time"
+	"unsafe"
 )
 
 type Config struct {
@@ -62,6 +65,8 @@ func Run(cfg Config, fns []func()) *Result {
 		spawnWG.Wait()
 	case 2:
 		res.Outcome = "deadlock"
+	case 4:
+		res.Outcome = "stalled"
 	default:
 		res.Outcome = "stepcap"
 	}
@@ -300,9 +305,24 @@ func kick() {
 	unpark(&tasks[to].wake)
 }
 
+// StallBudget bounds the wall-clock time of one run: a task that blocks in the Go runtime (an operation
+// the simulation does not know: it is the only task running) would otherwise stall the run for ever.
+var StallBudget = 45 * time.Second
+
 //go:norace
 func waitMain() int {
-	park(&mainWake)
+	deadline := time.Now().Add(StallBudget)
+	for mainWake == 0 {
+		ts := syscall.Timespec{Sec: 0, Nsec: 200e6}
+		syscall.Syscall6(syscall.SYS_FUTEX, uintptr(unsafe.Pointer(&mainWake)), 0 /*FUTEX_WAIT*/, 0, uintptr(unsafe.Pointer(&ts)), 0, 0)
+		if mainWake == 0 && time.Now().After(deadline) {
+			outcome = 4 // stalled
+			running = -1
+			active = false
+			return outcome
+		}
+	}
+	mainWake = 0
 	active = false
 	return outcome
 }
